@@ -1,3 +1,7 @@
+(* flush at least every half second of runner CPU time: the correspondence treats 30 s (VERIF_STALL) without an
+   output line as a hang, and a block-buffered pipe would otherwise hold back the lines of slow cases *)
+let last_flush = ref (Sys.time ())
+
 let () =
   try
     while true do
@@ -11,6 +15,7 @@ let () =
                 | Some f -> f args
                 | None -> "ERR unknown-entry " ^ e)
             with Match_failure _ -> "ERR bad-args" | Failure m -> "ERR " ^ m | Stack_overflow -> "ERR stack") in
-         print_string out; print_char '\n')
+         print_string out; print_char '\n';
+         if Sys.time () -. !last_flush > 0.5 then (flush stdout; last_flush := Sys.time ()))
     done
   with End_of_file -> ()
